@@ -173,6 +173,14 @@ func lcMakeComms(r *rand.Rand, n int) []*lcComm {
 		}(w)
 	}
 	wg.Wait()
+	// seats are sampled with replacement: a validator can hold several seats of one committee. Every committee here has a few
+	// shared seats (each seat still counts, and signs, for itself)
+	for _, c := range comms {
+		for _, pr := range [][2]int{{7, 300}, {10, 11}, {100, 101}, {100, 102}, {511, 0}} {
+			c.sks[pr[1]] = c.sks[pr[0]]
+			c.sc.Pubkeys[pr[1]] = c.sc.Pubkeys[pr[0]]
+		}
+	}
 	for _, c := range comms {
 		var sum kbls.Fr
 		sum.Zero()
@@ -662,6 +670,44 @@ func (g *lcGen) corrupt(r *rand.Rand, c *beacon.ConsensusLightClient, u *lcUpd, 
 			}
 		}
 		return false
+	}
+	// two participating seats hold the same key, and that key signed ONCE: the aggregate is short of one contribution
+	sharedSeatOnce := func() bool {
+		if len(u.signers) == 0 {
+			return false
+		}
+		for _, cm := range g.comms {
+			if !lcSameKeys(lcKeysAt(cm.sc, u.bits), u.signers) {
+				continue
+			}
+			first := map[common.BLSPubkey]int{}
+			var pairs [][2]int
+			for i, pk := range cm.sc.Pubkeys {
+				if j, ok := first[pk]; ok {
+					pairs = append(pairs, [2]int{j, i})
+				} else {
+					first[pk] = i
+				}
+			}
+			if len(pairs) == 0 {
+				return false
+			}
+			pr := pairs[r.Intn(len(pairs))]
+			bits := append(altair.SyncCommitteeBits(nil), u.bits...)
+			bits[pr[0]/8] |= 1 << (uint(pr[0]) % 8)
+			bits[pr[1]/8] |= 1 << (uint(pr[1]) % 8)
+			signedBy := append(altair.SyncCommitteeBits(nil), bits...)
+			signedBy[pr[1]/8] &^= 1 << (uint(pr[1]) % 8)
+			u.bits = bits
+			u.sig = cm.sign(signedBy, u.signed)
+			u.signers = lcKeysAt(cm.sc, signedBy)
+			u.corrupt = "shared-seat-signed-once"
+			return true
+		}
+		return false
+	}
+	if r.Intn(9) == 0 && sharedSeatOnce() {
+		return
 	}
 	straddles := c.Config.Spec.ForkVersion(common.Slot(u.sigSlot)) != c.Config.Spec.ForkVersion(u.att.Slot)
 	if (straddles && r.Intn(2) == 0 || r.Intn(14) == 0) && otherFork() {
